@@ -111,6 +111,14 @@ def work(job):
         files = {"src/manylines.rs": (many_lines + '    info!("after many lines");' + eol + '    warn!(a = 1; "and one more");' + eol).encode(),
                  "src/longline.rs": ("fn l() {" + eol + pad + 'info!("far to the right"); error!("and further");' + eol + "}" + eol).encode()}
         structured = rnd.random() < 0.5
+    elif kind == "nostatements":
+        # readable in-scope files that hold no statement of a configured macro (a new crate, macros not used yet, everything ignored):
+        # nothing lacks a reference, so --check passes and prints a total of 0
+        variants = [b"fn main() {\n    println!(\"hello\");\n}\n", b"// nothing here\n", b"", b"fn f() {\n    // breadlog:ignore\n    info!(\"ignored\");\n}\n",
+                    b"pub mod a;\npub mod b;\n", b"fn g() { debug!(\"not configured\"); tracing::info!(\"other module\"); }\n", b"/* info!(\"in a comment\") */\n"]
+        files = {"src/n%d.rs" % k: rnd.choice(variants) for k in range(rnd.randrange(1, 5))}
+        truth_missing = 0
+        structured = rnd.random() < 0.5
     elif kind == "sameline":
         # several statements on one source line (match arms, if/else, closures): every one has its own column
         lines = []
@@ -164,6 +172,12 @@ def work(job):
         return res
     ntok = sum(len(fo.tokens) for fo in out.files.values())
     if out.check.total_missing() is None:
+        if out.check.rc is not None and (ntok > 0 or out.check.rc != 0) and "Found" in out.check.out + out.check.err or envx:
+            # the run ended normally, had something to say (or merely ran in another environment) and printed no total
+            res["violations"].append({"signature": "C05.check-printed-no-total|%s%s" % ("structured" if structured else "unstructured", "|extra-environment" if envx else ""),
+                                      "detail": {"check_exit": out.check.ended(), "inserted_by_edit": ntok, "environment": envx, "stdout_tail": out.check.out[-300:]},
+                                      "case": {"files": {r: f.before for r, f in list(out.files.items())[:4]}, "structured": structured, "ambient": amb, "env": envx}})
+            return res
         res["inconclusive"]["check output has no parsable total"] = 1
         return res
     if truth_missing is not None and not unreadable:
@@ -210,6 +224,8 @@ def main(tier):
         jobs.append((built, "sameline", ck.seed, i, None))
     for i in range(6 if quick else 40):
         jobs.append((built, "bigcoords", ck.seed, i, None))
+    for i in range(60 if quick else 600):
+        jobs.append((built, "nostatements", ck.seed, i, None))
     for i in range(6):
         jobs.append((built, "crafted", ck.seed, i, i % 3))
     shards, reg = trees.corpus_shards(rnd, 16, registry_n=0 if quick else 1500)
@@ -237,9 +253,9 @@ def replay_witness(w, ck=None, built=None):
     files = {rel: (bytes.fromhex(d["hex"]) if isinstance(d, dict) else d.encode("utf-8")) for rel, d in c["files"].items()}
     with core.Box(tag="c05r") as box:
         cfg = core.make_config(structured=True if c["structured"] else None, use_cache=False)
-        out = lab.run_tree(built, box, files, cfg, trace=False, ambient=ambient.from_json(c.get("ambient")))
+        out = lab.run_tree(built, box, files, cfg, trace=False, ambient=ambient.from_json(c.get("ambient")), env_extra=c.get("env"))
     v = judge(out, files)
-    return bool(v)
+    return bool(v) or out.check.total_missing() is None
 
 
 def replay(path):
